@@ -6,6 +6,19 @@ use crate::{BitFont, Buffer, CallbackAction, Caret, EngineResult, ParserError, S
 
 use super::{parse_next_number, Parser};
 
+/// Macro space reported by DSR 62 (`CSI ? 62 n`).
+const MAX_MACRO_SIZE: usize = 32767;
+
+/// Appends `count` copies of a hex macro repeat group, up to the macro space.
+fn push_repeated(macro_rec: &mut String, repeat_rec: &str, count: i32) {
+    for _ in 0..count {
+        if repeat_rec.is_empty() || macro_rec.len() + repeat_rec.len() > MAX_MACRO_SIZE {
+            break;
+        }
+        macro_rec.push_str(repeat_rec);
+    }
+}
+
 #[derive(Debug, Clone, Copy)]
 enum HexMacroState {
     FirstHex,
@@ -115,7 +128,7 @@ impl Parser {
                 HexMacroState::FirstHex => {
                     if ch == ';' && read_repeat {
                         read_repeat = false;
-                        (0..repeat_number).for_each(|_| marco_rec.push_str(&repeat_rec));
+                        push_repeated(&mut marco_rec, &repeat_rec, repeat_number);
                         continue;
                     }
                     if ch == '!' {
@@ -157,7 +170,7 @@ impl Parser {
             }
         }
         if read_repeat {
-            (0..repeat_number).for_each(|_| marco_rec.push_str(&repeat_rec));
+            push_repeated(&mut marco_rec, &repeat_rec, repeat_number);
         }
 
         self.macros.insert(id, marco_rec);
